@@ -35,6 +35,7 @@ type cacheAction struct {
 	K        int64         `json:"k,omitempty"`
 	Eligible []uint64      `json:"eligible,omitempty"`
 	Plain    bool          `json:"plain,omitempty"` // search: run a plain Search even through a filtering-capable handle
+	Fault    bool          `json:"fault,omitempty"` // search: the engine fails one search on this handle just before
 	Defer    bool          `json:"defer,omitempty"` // search: the result list is read only after the next search on that handle (or when it is closed)
 }
 
@@ -87,6 +88,7 @@ func genCacheCase(t *rapid.T) cacheCase {
 			a.Eligible = rapid.SliceOfNDistinct(rapid.Uint64Range(0, uint64(min(nd, 10)-1)), 0, 6, rapid.ID[uint64]).Draw(t, al+"elig")
 			a.Plain = rapid.Bool().Draw(t, al+"plain")
 			a.Defer = gen.Chance(t, al+"defer", 40)
+			a.Fault = gen.Chance(t, al+"fault", 15)
 		case "close":
 			a.Handle = rapid.IntRange(0, 30).Draw(t, al+"h")
 		}
@@ -273,6 +275,18 @@ func runCacheCase(c cacheCase) *Violation {
 							eligible = append(eligible, d)
 						}
 					}
+				}
+				if a.Fault {
+					// the engine fails this one search (whichever engine call it makes first); the
+					// error is the caller's to see, the handle and the cached index stay as they were
+					for _, op := range []string{"Search", "SearchWithoutIDs", "SearchWithIDs"} {
+						faiss.VerifFailNth(op, 1)
+					}
+					_, ferr := startSearch(h.vi, q, a.K, useFilter, eligible)
+					for _, op := range []string{"Search", "SearchWithoutIDs", "SearchWithIDs"} {
+						faiss.VerifFailNth(op, 0)
+					}
+					_ = ferr
 				}
 				pl, err := startSearch(h.vi, q, a.K, useFilter, eligible)
 				if err != nil {
@@ -770,6 +784,13 @@ func TestC16Fixed(t *testing.T) {
 		cacheAction{Op: "search", Handle: 0, Q: []float32{1, 0, 0, 0}, K: 2400, Eligible: evens},
 		cacheAction{Op: "search", Handle: 1, Q: []float32{1, 0, 0, 0}, K: 2400, Plain: true},
 		cacheAction{Op: "search", Handle: 0, Q: []float32{0, 1, 0, 0}, K: 3, Eligible: a})
+	// the engine fails one search of the second handle, which is then closed; after several idle
+	// expiry passes the first handle must still answer (its reference keeps the index alive)
+	c.Actions = append(c.Actions,
+		cacheAction{Op: "search", Handle: 1, Q: []float32{0, 1, 0, 0}, K: 5, Plain: true, Fault: true},
+		cacheAction{Op: "close", Handle: 1},
+		cacheAction{Op: "expire"}, cacheAction{Op: "expire"}, cacheAction{Op: "expire"}, cacheAction{Op: "expire"},
+		cacheAction{Op: "search", Handle: 0, Q: []float32{0, 1, 0, 0}, K: 5, Eligible: b})
 	c.Actions = append(c.Actions, cacheAction{Op: "close", Handle: 0})
 	sc := c
 	sc.Actions = sc.Actions[:1]
